@@ -245,6 +245,9 @@ pub enum COp {
     CloneVec { v: usize, w: usize },
     /// into_iter(): take `front`/`back` items, drop the rest with the iterator
     IntoIter { v: usize, front: usize, back: usize },
+    /// into_iter() consumed through an adaptor: 0 nth(n), 1 skip(n).next(), 2 step_by(n + 1) to the end, 3 last(),
+    /// 4 count(), 5 rev().nth(n), 6 nth(n) twice then next(); what is not returned must be dropped with the iterator
+    IntoIterVia { v: usize, how: u8, n: usize },
     IntoBumpSlice { v: usize, #[serde(default)] mutable: bool },
     IntoBoxedSlice { v: usize, b: usize, #[serde(default)] via_from: bool },
     /// every read-only view / comparison (against vector w) / hashing / formatting of the Vec agrees with the same
@@ -853,6 +856,38 @@ macro_rules! interp {
                                         }
                                     }
                                     ev.retn = it.len() as i64;
+                                }
+                                for t in got {
+                                    ev.ret.push([t.id, t.val]);
+                                    s.held.push(t);
+                                }
+                            });
+                        }
+                        COp::IntoIterVia { v, how, n } => {
+                            let mut ev = base("into_iter_via");
+                            ev.a = how as i64;
+                            ev.b = n as i64;
+                            self.call(ev, v as i64, -1, |s, ev| {
+                                let mut got: Vec<Tr> = Vec::new();
+                                if let Some(x) = s.slot(v).take() {
+                                    let mut it = x.into_iter();
+                                    match how {
+                                        0 => got.extend(it.nth(n)),
+                                        1 => got.extend(it.by_ref().skip(n).next()),
+                                        2 => got.extend(it.by_ref().step_by(n + 1)),
+                                        3 => got.extend(it.by_ref().last()),
+                                        4 => ev.retn = it.by_ref().count() as i64,
+                                        5 => got.extend(it.by_ref().rev().nth(n)),
+                                        _ => {
+                                            got.extend(it.nth(n));
+                                            got.extend(it.nth(n));
+                                            got.extend(it.next());
+                                        }
+                                    }
+                                    if how != 4 {
+                                        ev.retn = it.len() as i64;
+                                    }
+                                    drop(it);
                                 }
                                 for t in got {
                                     ev.ret.push([t.id, t.val]);
